@@ -39,7 +39,7 @@ def plan(tier, seed):
 def finalize(agg, tier):
     c = agg["counters"]
     out = []
-    need = ["zero_divisor_operands", "from_bytes_twice", "calls:AESNI_start_operation", "calls:AES_start_operation", "calls:ghash_clmul", "calls:ghash_portable",
+    need = ["zero_divisor_operands", "carry_chain_operands", "from_bytes_twice", "calls:AESNI_start_operation", "calls:AES_start_operation", "calls:ghash_clmul", "calls:ghash_portable",
             "int_ops_compared", "transcript_lines:gmp", "transcript_lines:custom", "transcript_lines:native"]
     for n in need:
         if not c.get(n):
@@ -448,6 +448,15 @@ def w_int_inproc(spec, ctx):
             elif op.startswith("pow3"):
                 args[1] = rng.choice([2, 2, 3, 5, 64])
             ctx.count("zero_divisor_operands")
+        elif op in ("pow3", "pow3_I", "mult_modulo_bytes", "inverse", "mod") and isinstance(args[-1], int) and args[-1] % 2 \
+                and args[-1] > (1 << 64) and rng.random() < 0.15:
+            # operands that stress the carry chain of a word-wise Montgomery multiplication modulo this modulus
+            v = intops.carry_chain_operand(rng, args[-1])
+            if v is not None:
+                args[0] = v
+                if op == "mult_modulo_bytes":
+                    args[1] = v
+                ctx.count("carry_chain_operands")
         if op == "from_bytes" and rng.random() < 0.3:
             # the same caller-owned bytearray decoded twice: the second decoding must see the same octets
             order = args[1]
